@@ -1,4 +1,5 @@
 import TRV.Proofs.CompleteOpts
+import TRV.Proofs.MinSack
 set_option linter.unusedVariables false
 /-!
 # C02, byte level, IPv4 headers with options ("outer IP options" of the property text)
@@ -153,6 +154,27 @@ theorem c02_sack_direct_bytes_allopts {s : SackSt} {t : Nat} {p : Sent}
       .accept t s.cfg.target true p.time :=
   sack_direct_complete_allopts hl htg o1 o2 o3 o4 d5 d15 hol hok hms h1 h2 h3 hff hfr b1 b2 b3 b4 b5 hfl hsize hlk
 
+/-- SACK: what `getMinSack` returns is the LEAST relative left edge over every complete 8-byte block of
+    every SACK option of the segment — any number of options and blocks, in any order, on either side of
+    the 2^32 sequence wrap (the edge is made relative to the ISN BEFORE the comparison). With
+    `c02_sack_direct_bytes_allopts`: the destination's acknowledgement is attributed to the lowest
+    probed TTL it selectively acknowledges. -/
+theorem c02_sack_min_is_least_block {isn : Nat} {opts : List (Nat × Bytes)} {m : Nat} (h : minSack isn opts = some m) :
+    (∃ d k l, (5, d) ∈ opts ∧ 8 * k + 8 ≤ d.length ∧ u32 d (8 * k) = some l ∧ m = relEdge isn l) ∧
+    (∀ d k l, (5, d) ∈ opts → 8 * k + 8 ≤ d.length → u32 d (8 * k) = some l → m ≤ relEdge isn l) :=
+  minSack_is_least_block h
+
+/-- … and "no SACK blocks" (the one inbound segment allowed to end a run, C09/C20) is reported exactly
+    when no SACK option of the segment holds a complete block -/
+theorem c02_sack_none_iff_no_block {isn : Nat} {opts : List (Nat × Bytes)} :
+    minSack isn opts = none ↔ ∀ d, (5, d) ∈ opts → d.length < 8 :=
+  minSack_none_iff_no_block
+
+/-- non-vacuity across the wrap: ISN 2^32 - 3, blocks at ISN+4 (= 1 after the wrap) and ISN+2
+    (= 2^32 - 1, before it): the least RELATIVE edge is 2 although the least raw edge is 1 -/
+example : minSack 0xfffffffd [(1, []), (5, ([0,0,0,1, 0,0,0,2, 0xff,0xff,0xff,0xff, 0,0,0,0] : List Nat).map byte)] = some 2 := by
+  decide +kernel
+
 /-- non-vacuity of the option hypotheses (kernel evaluation): the 20 option bytes Linux puts on a SYN-ACK
     (MSS 1460, SACK-permitted, timestamps, NOP, window scale 7) are accepted by the TCP option loop, and
     an ACK carrying NOP NOP timestamps + NOP NOP SACK with two blocks (the second one lower) has the lower
@@ -205,4 +227,6 @@ example :
 #print axioms c02_opts_hyp_eol
 #print axioms c02_tcp_direct_bytes_allopts
 #print axioms c02_sack_direct_bytes_allopts
+#print axioms c02_sack_min_is_least_block
+#print axioms c02_sack_none_iff_no_block
 end TRV.Props.C02Opts
